@@ -448,6 +448,12 @@ func zzShape(n int) (*zzGraph, []string, bool) {
 			{Name: "F", Cmds: []zzCmd{probe}},
 			{Name: "S", Run: "once", IgnoreError: zz.Bool("ignore.S"), Cmds: []zzCmd{probe}},
 		}}, []string{"R"}, false
+	case 7: // two different deduplicated dependencies whose names end alike
+		return &zzGraph{Tasks: []zzTask{
+			{Name: "R", Deps: []string{"docker:build", "npm:build"}, Cmds: []zzCmd{probe}},
+			{Name: "docker:build", Run: "once", Cmds: []zzCmd{probe}},
+			{Name: "npm:build", Run: "once", Cmds: []zzCmd{probe}},
+		}}, []string{"R"}, false
 	case 5: // dependency + nested call of the same shared task
 		return &zzGraph{Tasks: []zzTask{
 			{Name: "R", Deps: []string{"A", "B"}},
